@@ -32,6 +32,7 @@ import Mdsort.Model.L0.Mime
 import Mdsort.Model.L0.Util
 import Mdsort.Model.L0.Buffer
 import Mdsort.Model.Start
+import Mdsort.Model.Opts
 
 /-!
 Line-protocol driver: one request per line `<side> <op> <hexarg>*`, one response
@@ -65,6 +66,8 @@ opaque mbtowcFFI (str : @& ByteArray) (off : UInt64) : UInt64
 /-- `wcwidth + 1`. -/
 @[extern "mdsort_wcwidth"]
 opaque wcwidthFFI (wc : UInt32) : UInt32
+@[extern "mdsort_timefmt"]
+opaque timefmtFFI (fmt : @& ByteArray) (tz : @& ByteArray) (t : UInt64) : Array UInt32
 
 def hexDigit (n : UInt8) : Char :=
   if n < 10 then Char.ofNat (48 + n.toNat) else Char.ofNat (87 + n.toNat)
@@ -147,6 +150,16 @@ def handleSpec (op : String) (args : List Bytes) : Option String :=
     match Spec.parts Model.entity (Gen.mimeDepthLimit + 1) e with
     | none => some "NONE"
     | some ps => some (s!"P{ps.length}" ++ String.join (ps.map fun p => " " ++ dumpTable p ++ "|" ++ dumpBody (Spec.decodedBody Model.entity Gen.mimeDepthLimit p)))
+  | "partsrfc", [m] =>
+    -- the parts a reader of RFC 2045 sees (boundary parameter in any position, token or quoted-string): judges finding F30
+    let e := Model.parseMessage m
+    match Spec.partsRFC Model.entity (Gen.mimeDepthLimit + 1) e with
+    | none => some "NONE"
+    | some ps => some (s!"P{ps.length}" ++ String.join (ps.map fun p => " " ++ dumpTable p ++ "|" ++ dumpBody (Spec.decodedBody Model.entity Gen.mimeDepthLimit p)))
+  | "bparamrfc", [ct] =>
+    some (match Spec.boundaryParamRFC ct, Spec.boundaryParam ct with
+      | a, b => (match a with | .none => "NONE" | .bad => "BAD" | .some x => "B" ++ toHex x) ++ " " ++
+                (match b with | .none => "NONE" | .bad => "BAD" | .some x => "B" ++ toHex x))
   | "body", [m] =>
     let e := Model.parseMessage m
     if !Proofs.BoundaryOk (Gen.mimeDepthLimit + 1) e then some "NOTWF" else
@@ -244,6 +257,14 @@ def strptimeEnv (s : Bytes) : Option (Model.Tm × Bytes) :=
 
 def zoneEnv (now : Int) (name : Bytes) : Option Int :=
   some ((zoneFFI (ba name) now.toNat.toUInt64).toNat - 2147483648 : Int)
+
+/-- `time_format` (time.c): `localtime` + `strftime` with the first date format, in the zone `tz` (empty: TZ unset). -/
+def timeFormatEnv (tz : Bytes) (t : Int) : Option Bytes :=
+  match Gen.dateFormats.head? with
+  | none => none
+  | some f =>
+    let r := timefmtFFI f.toUTF8 (ba tz) (t + 4611686018427387904).toNat.toUInt64
+    if (r[0]?).getD 0 == 1 then some ((r.toList.drop 1).map fun c => c.toNat.toUInt8) else none
 
 /-- The value of `exec(argv, -1)` for the programs the unit harness knows: `true`, `false`, and the injectable outcomes
 `vstatus:...` of harness/unit/h_expr.c, mapped by the transcription of `exec()`'s status handling (`Model.execValue`:
@@ -564,7 +585,9 @@ configuration argument could not be read) together with "some rule discards" (fo
 def conformWith (envB filesB devsB input traceB : Bytes)
     (mk : Model.PEnv → Bool → Model.EvalOracles → Model.Files → Option (Model.Prog (Nat × Model.MainSt) × Bool)) : String :=
     let ew := Driver.words (Driver.asText envB)
-    match ew with
+    -- optional 12th word: the TZ the run had (hex; `-` = unset), for `time_format`
+    let tzW : Option Bytes := (ew[11]?).bind Driver.unhex
+    match ew.take 11 with
     | [now, pid, host, random, tmpdir, home, confpath, dry, syn, sin, confok] =>
       match Driver.unhex host, Driver.unhex tmpdir, Driver.unhex home, Driver.unhex confpath with
       | some host, some tmpdir, some home, some confpath =>
@@ -597,7 +620,9 @@ def conformWith (envB filesB devsB input traceB : Bytes)
             files := indexed.map fun e => (e.2, { data := e.1.2.2, durable := e.1.2.2 }),
             mtimes := indexed.map fun e => (e.2, mtimes.getD e.2 0),
             nextFid := files.length, handles := [.other, .other, .other], devs := devs, trace := [] }
-          let orc : Model.EvalOracles := { rx := rxFFI, strptime := strptimeEnv, zoneName := zoneEnv env.now }
+          let tzB : Bytes := tzW.getD []
+          let orc : Model.EvalOracles :=
+            { rx := rxFFI, strptime := strptimeEnv, zoneName := (zoneEnv env.now), timeFormat := (timeFormatEnv tzB) }
           -- the ghost allowance of the `readdir` loops: the length of the observed trace always suffices
           -- (`C04_fuel_suffices_conform`), so a `done` answer is never a walk truncated by the model's fuel
           let env : Model.PEnv := { env with extraFuel := trace.length }
@@ -685,6 +710,45 @@ def handleLex (args : List Bytes) : String :=
       | _ => "BADREC")
   | _ => "BADOP"
 
+/-! ### the command line (Model/Opts.lean) -/
+
+/-- `hex` / `~` (absent) -/
+def optHexT : Option Bytes → String
+  | none => "~"
+  | some b => Driver.hex b
+
+def argsAnswer (r : Except Model.ArgsErr Model.Opts) : String :=
+  match r with
+  | .error .usage => "USAGE"
+  | .error (.macroSeparator a) => s!"MACROSEP {Driver.hex a}"
+  | .error (.macroInvalid n) => s!"MACROINV {Driver.hex n}"
+  | .ok o =>
+    let b (x : Bool) := if x then "1" else "0"
+    s!"OK d={b o.dryrun} n={b o.syntaxOnly} s={b o.stdinMode} f={optHexT o.confpath} v={o.verbosity} D" ++
+      String.join (o.defs.map fun (n, v) => s!" {Driver.hex n}={Driver.hex v}")
+
+/-- One line per value: `hex`, `-` (empty) or `~` (absent). -/
+def optLine (s : String) : Option (Option Bytes) :=
+  if s == "~" then some none else (Driver.unhex s).map some
+
+/-- conformargs <permute 0|1> <argv: one hex word per line> <raw environment: HOME, pw_dir, TMPDIR, TZ, _PATH_TMP - one per line>
+<env> <configuration text> <files> <devs> <stdin> <trace>: the run of `Model.mainArgs` along the observed trace.  The paths and the
+mode words of `<env>` are ignored: they are computed from argv and the raw environment. -/
+def handleConformArgs (args : List Bytes) : String :=
+  match args with
+  | [perm, argvB, rawB, envB, confText, filesB, devsB, input, traceB] =>
+    let argv : Option (List Bytes) := (Driver.lines argvB).mapM Driver.unhex
+    let raw : Option Model.RawEnv :=
+      match (Driver.lines rawB).mapM optLine with
+      | some [home, pwdir, tmpdir, tz, some pathTmp] => some { home := home, pwdir := pwdir, tmpdir := tmpdir, tz := tz, pathTmp := pathTmp }
+      | _ => none
+    match argv, raw with
+    | some argv, some raw =>
+      conformWith envB filesB devsB input traceB fun env _ orc files =>
+        some (Model.mainArgs (perm == [49]) argv raw env orc rxOkFFI confText files input, false)
+    | _, _ => "BADARGS"
+  | _ => "BADOP"
+
 def handleMsg (side op : String) (args : List Bytes) : Option String :=
   match side, op, args with
   | "M", "hparse", [m] => some (dumpTable (Model.parseMessage m))
@@ -715,6 +779,8 @@ def handleMsg (side op : String) (args : List Bytes) : Option String :=
   | "M", "locale", [x] => some (let r := localeInfoFFI x.length.toUInt32; s!"{r >>> 8} {r &&& 255}")
   | "M", "conform", as => some (handleConform as)
   | "M", "conformtext", as => some (handleConformText as)
+  | "M", "conformargs", as => some (handleConformArgs as)
+  | "M", "args", perm :: argv => some (argsAnswer (Model.parseArgs (perm == [49]) argv))
   | "M", "lex", as => some (handleLex as)
   | "M", "conf", as => some (Driver.Conf.handle rxOkFFI as)
   | "M", "confprint", as => some (Driver.Conf.handlePrint rxOkFFI as)
